@@ -63,7 +63,7 @@ class ForbiddenRNG:
 
 def gen_cases(tier: str, seed: int) -> list[dict[str, Any]]:
     cases = []
-    n = 24 if tier == "quick" else 200
+    n = 24 if tier == "quick" else 1500
     for i in range(n):
         rng = C.rng_for(seed, 11, i)
         D = float(10 ** rng.uniform(-3, 2))
